@@ -43,8 +43,12 @@ class Contract:
         caller = ctx.callstack[-1] if ctx.callstack else (it.top or "?")
         if self.pre is not None:
             for name, f in self.pre(it, **bound):
-                ctx.oblige(f"{caller}/call:{self.qualname}/pre:{name}", f,
-                           props=self.props.get("pre:" + name, ()))
+                oname = f"{caller}/call:{self.qualname}/pre:{name}"
+                if callable(f):      # a fact quantified over all locations
+                    ctx.oblige_forall_loc(oname, f, props=self.props.get("pre:" + name, ()))
+                    ctx.assume_forall_loc(f)
+                    continue
+                ctx.oblige(oname, f, props=self.props.get("pre:" + name, ()))
                 ctx.assume(f)
         ctx.spec_mode += 1
         ctx.callstack.append("spec:" + self.qualname)
@@ -111,6 +115,22 @@ def veq(it, a, b, seen=None):
         for ga, x, y in zip(a.guards, a.items, b.items):
             cs.append(z3.Implies(ga, veq(it, x, y, seen)))
         return z3.And(True, *cs)
+    if isinstance(a, VObj) and a.cls == "symdict" and isinstance(b, VDict):
+        a, b = b, a
+    if isinstance(a, VDict) and isinstance(b, VObj) and b.cls == "symdict":
+        # concrete dictionary against a dictionary given as (domain predicate, value function)
+        has, get = b.f["fn_has"], b.f["fn_get"]
+        k = it.ctx.fresh("anykey", T.S)
+        dom = z3.Or(False, *[z3.And(g, lib.eq(it, key, VStr(k))) for g, key, _ in a.entries])
+        cs = [dom == has(k)]
+        for g, key, val in a.entries:
+            kt = key.term
+            cs.append(z3.Implies(g, z3.And(has(kt), veq(it, val, get(kt), seen))))
+        return z3.And(*cs)
+    if isinstance(a, VObj) and a.cls == "symdict" and isinstance(b, VObj) and b.cls == "symdict":
+        k = it.ctx.fresh("anykey", T.S)
+        return z3.And(a.f["fn_has"](k) == b.f["fn_has"](k),
+                      z3.Implies(a.f["fn_has"](k), veq(it, a.f["fn_get"](k), b.f["fn_get"](k), seen)))
     if isinstance(a, VDict) and isinstance(b, VDict):
         if len(a.entries) != len(b.entries):
             raise Mismatch(f"dict skeletons differ: {a} vs {b}")
@@ -166,7 +186,10 @@ def verify_case(eng, lib, con, case_name, make_case, monitors=(), setup=None):
         bound = it.bind_args(node, list(args), {}, None).vars
         if con.pre is not None:
             for name, f in con.pre(it, **bound):
-                ctx.assume(f)
+                if callable(f):
+                    ctx.assume_forall_loc(f)
+                else:
+                    ctx.assume(f)
         if ctx.check() != z3.sat:
             raise PathPruned()
         memo = {}
@@ -239,8 +262,9 @@ def compare(it, con, case_name, out_b, out_s, st_b, st_s, args_b, args_s):
         except Mismatch as m:
             ctx.fail(f"{q}/post/result", str(m), site=site, props=P("result"))
     if "fs" in con.compare:
-        ctx.oblige(f"{q}/post/fs", st_b.fs == st_s.fs, site=site, props=P("fs"),
-                   detail=f"outcome {nb}")
+        x = ctx.skolem_loc()     # extensionality: equal at an arbitrary location
+        ctx.oblige(f"{q}/post/fs", z3.Select(st_b.fs, x) == z3.Select(st_s.fs, x), site=site,
+                   props=P("fs"), detail=f"outcome {nb}")
     if "dirs" in con.compare:
         ctx.oblige(f"{q}/post/dirs", st_b.dirs == st_s.dirs, site=site, props=P("dirs"))
     if "locks" in con.compare:
